@@ -30,6 +30,7 @@ PROP = dict(
     units=[
         U("parse", "./pql", "^TestVerifC26_Parse$", 6000, 400000, sq=6, sth=14, timeout={"quick": 300, "thorough": 1500}),
         U("forward", ".", "^TestVerifC26_Forward$", 2000, 80000, sq=4, sth=8, timeout={"quick": 300, "thorough": 1500}),
+        U("fuzzparse", "./pql", "^$", 0, 0, sq=1, sth=1, fuzz="FuzzVerifC26Parse", fuzztime={"thorough": 120}, fuzzprocs=8, tiers=["thorough"], rapid=False),
         U("cluster", "./server", "^TestVerifC26_Cluster$", 120, 3000, sq=3, sth=6, timeout={"quick": 300, "thorough": 1500}),
     ],
 )
